@@ -356,6 +356,8 @@ func gen(tier string, seed uint64) []runner.Scenario {
 						cuts = append(cuts, p)
 					}
 				}
+				var m1, m2 runtime.MemStats
+				runtime.ReadMemStats(&m1)
 				a.guard("Reader.ReadPacket", func() string { return fmt.Sprintf("max=%d stream=[%s] hex=%s", max, st.Desc, hexs(st.Data)) }, func() {
 					sr := &wiregen.Scripted{Data: st.Data, Cuts: cuts, Final: io.EOF}
 					rd := drpcwire.NewReaderWithOptions(sr, drpcwire.ReaderOptions{MaximumBufferSize: max})
@@ -375,6 +377,12 @@ func gen(tier string, seed uint64) []runner.Scenario {
 					}
 					a.fail("reader-runaway", "max=%d stream=[%s]: 100000 packets from %d bytes", max, st.Desc, len(st.Data))
 				})
+				// everything the reader allocated for this stream (read buffer and the packet under
+				// assembly, including append growth) stays within a small multiple of the limit
+				runtime.ReadMemStats(&m2)
+				if allocated, limit := m2.TotalAlloc-m1.TotalAlloc, uint64(12*max+256*1024); allocated > limit {
+					a.fail("reader-alloc-bound", "max=%d stream=[%s] (%d bytes): the reader allocated %d bytes (> %d)", max, st.Desc, len(st.Data), allocated, limit)
+				}
 			}
 		})
 	}
